@@ -365,12 +365,12 @@ func init() {
 					out.Infra = []string{r.infra}
 					return out
 				}
-				out.Stats, out.Events = r.stats, r.events
+				out.Stats, out.Events, out.Hung = r.stats, r.events, r.hung
 				for _, v := range r.viol {
 					if strings.Contains(v.Sig, "main_exited") || strings.Contains(v.Sig, "main_did_not_stop") {
 						out.Viol = append(out.Viol, Violation{Class: "exit", Sig: "exit/main", Detail: "hostile-log script against the assembled service: " + v.Detail})
 					}
-					if strings.Contains(v.Sig, "blocked_goroutines_at_end") || strings.Contains(v.Sig, "read_failed") || strings.Contains(v.Sig, "never_distributed") {
+					if strings.Contains(v.Sig, "blocked_goroutines_at_end") || strings.Contains(v.Sig, "read_failed") || strings.Contains(v.Sig, "never_distributed") || strings.Contains(v.Sig, "service_hung") {
 						out.Viol = append(out.Viol, Violation{Class: "hang", Sig: "hang/service/" + v.Sig, Detail: "hostile-log script against the assembled service: " + v.Detail})
 					}
 				}
